@@ -36,6 +36,7 @@ unsigned long cv_nondet_ulong(void) { unsigned long x; return x; }
 int cv_nondet_int(void) { int x; return x; }
 int cv_max_items = MAXCALLS;
 int cv_items_seen;
+int cv_list_done;          /* ghost set by the strListGetItem model when it reports the end of the list */
 void cv_must_fail(void) { __CPROVER_assert(0, "Must() condition holds (checkValue/checkList are only entered with !sawBad)"); }
 
 /* ---- ASSUMED contract of httpHeaderParseOffset(start, &v, &end): exactly the postcondition that units/int64parse
@@ -200,7 +201,7 @@ void h_checkfield(void)
     __CPROVER_assume((o.sawBad == 0 || o.sawBad == 1) && (o.needsSanitizing == 0 || o.needsSanitizing == 1) && (o.sawGood == 0 || o.sawGood == 1));
     __CPROVER_assume(st_inv(&o));
     struct st n = o;
-    g_calls = 0; cv_items_seen = 0;
+    g_calls = 0; cv_items_seen = 0; cv_list_done = 0;
     /* reference: is there a comma before the first NUL? (String::pos(',') is strchr on the terminated buffer) */
     _Bool comma = 0, ended = 0;
     for (size_t k = 0; k < N; k++) {
@@ -240,6 +241,9 @@ void h_checkfield(void)
 #endif
         }
         __CPROVER_assert(!(g_calls >= 1 && !n.sawBad) || n.sawGood, "ensures: a parsed member and !sawBad => sawGood");
+        /* "accepted only when unambiguous": a usable length means EVERY member was looked at, i.e. the walk reached the end
+         * of the list (a walk that stops early, e.g. after a tolerated duplicate, leaves later members unexamined) */
+        __CPROVER_assert(n.sawBad || cv_list_done, "ensures: length usable (!sawBad) => the whole list was examined, up to its end");
     }
 #ifdef REACH
 #if FIELD_CASE == 1
